@@ -12,9 +12,11 @@
    [avl t] (AvlProofs.v):  at every node  stored balance = height right - height left  and
    -1 <= balance <= 1.     [abs st] = (in-order listing of (id, data), serial number of next insert).
 
-   NOT modelled at pointer level: zix_tree_iter_next/prev walk parent pointers in C; the model steps
-   on the functional tree (tnext/tprev: right/left subtree's extreme, else nearest ancestor entered
-   from the other side).  See props/C06.json. *)
+   Pointer level: zix_tree_iter_next/prev walk parent pointers in C; this file's model steps on the
+   functional tree (tnext/tprev: right/left subtree's extreme, else nearest ancestor entered from
+   the other side).  The parent-pointer structure itself (rotate(), relinking in zix_tree_remove,
+   the while loops of iter_next/prev) is modelled in AvlHeapModel.v and proved to refine this
+   model in Properties_C06_heap.v.  See props/C06.json. *)
 From Coq Require Import ZArith List Bool Permutation.
 From Zix Require Import AvlSpec AvlModel AvlProofs AvlProofsHeight AvlProofsRemove AvlProofsState
   AvlProofsIter AvlProofsTop.
